@@ -40,6 +40,7 @@ PosLine(b) ==   \* the line number in a "c:<digits>:" prefix, or -1
 
 TokMatch(exp, got) ==
     CASE exp[1] = "rtmsg" -> got[1] = "s" /\ (exp[2] = 0 \/ LET l == PosLine(got[2]) IN l >= exp[2] /\ l <= exp[3])   \* position 0 = raised by host code: no position judged
+      [] exp[1] = "any" -> TRUE
       [] exp[1] = "anystr" -> got[1] = "s"
       [] exp[1] = "sfx" -> got[1] = "s" /\ HasSuffix(got[2], exp[2])
       [] exp[1] = "fault" -> got[1] = "s" /\ HasSuffix(got[2], <<118, 101, 114, 105, 102, 45, 102, 97, 117, 108, 116>>)   \* "verif-fault"
